@@ -137,7 +137,7 @@ func (w *world) judgeReturn(r *run, si int, model outT, o *obsT) {
 	res := w.res
 	if r.panicked != "" {
 		res.Violation(w.finding("dns.resolver/panic", "the resolver panicked: "+firstLine(r.panicked), si, model, r.panicked))
-		w.aborted = true
+		w.aborted, w.violated = true, true
 		return
 	}
 	traffic := r.traffic()
@@ -203,7 +203,7 @@ func (w *world) judgeReturn(r *run, si int, model outT, o *obsT) {
 		if st == nil {
 			res.Violation(w.finding("dns.cache/answer-without-upstream",
 				fmt.Sprintf("lookup of %s returned a result without asking upstream although no successful lookup of it is cached", nameTok), si, model, got))
-			w.aborted = true
+			w.aborted, w.violated = true, true
 			return
 		}
 		if w.now > st.bnd {
@@ -211,7 +211,7 @@ func (w *world) judgeReturn(r *run, si int, model outT, o *obsT) {
 			res.Violation(w.finding(key,
 				fmt.Sprintf("lookup of %s at t=%ds was answered from the cache without asking upstream; the smallest TTL / negative / failure caching time of the cached responses ended at t=%ds (responses of the storing lookup: %s)",
 					nameTok, w.now, st.bnd, kinds(st.msgs)), si, model, got))
-			w.aborted = true
+			w.aborted, w.violated = true, true
 			return
 		}
 	}
@@ -243,7 +243,7 @@ func (w *world) judgeReturn(r *run, si int, model outT, o *obsT) {
 	if len(bad) > 0 {
 		res.Violation(w.finding("dns.answers/not-from-own-responses",
 			fmt.Sprintf("lookup of %s returned %v: not an address any response for this name carried", nameTok, bad), si, model, got))
-		w.aborted = true
+		w.aborted, w.violated = true, true
 		return
 	}
 	if !isErr {
@@ -251,7 +251,7 @@ func (w *world) judgeReturn(r *run, si int, model outT, o *obsT) {
 			if !prov[t] {
 				res.Violation(w.finding("dns.answers/not-from-own-responses",
 					fmt.Sprintf("lookup of %s returned address %s, which no response to its own queries from the configured server contained (wrong source / foreign id / not a response, or another lookup's data)", nameTok, t), si, model, got))
-				w.aborted = true
+				w.aborted, w.violated = true, true
 				return
 			}
 		}
@@ -262,13 +262,13 @@ func (w *world) judgeReturn(r *run, si int, model outT, o *obsT) {
 	case isErr && model.R == "ok":
 		res.Violation(w.finding("dns.lookup/failure-despite-both-answers",
 			fmt.Sprintf("lookup of %s failed (%s) although both queries were answered (%s)", nameTok, errClass(r.err), kinds(deliveredOf(r))), si, model, got))
-		w.aborted = true
+		w.aborted, w.violated = true, true
 		return
 	case !isErr && traffic && model.R == "error":
 		if !(usableIDs["a"] && usableIDs["aaaa"]) {
 			res.Violation(w.finding("dns.lookup/success-without-both-answers",
 				fmt.Sprintf("lookup of %s succeeded although neither transport yielded both answers (%s)", nameTok, kinds(deliveredOf(r))), si, model, got))
-			w.aborted = true
+			w.aborted, w.violated = true, true
 			return
 		}
 	case !isErr && traffic && model.R == "stale":
@@ -300,7 +300,7 @@ func (w *world) judgeReturn(r *run, si int, model outT, o *obsT) {
 		if len(missing) > 0 && (r.api != "IP") {
 			res.Violation(w.finding("dns.answers/address-missing",
 				fmt.Sprintf("lookup of %s does not return %v, which the answering responses contain", nameTok, missing), si, model, got))
-			w.aborted = true
+			w.aborted, w.violated = true, true
 			return
 		}
 		same := slices.Equal(gotA, expA) && slices.Equal(gotB, expB)
@@ -309,7 +309,7 @@ func (w *world) judgeReturn(r *run, si int, model outT, o *obsT) {
 			if !same && len(expA)+len(expB) > 0 && len(gotA)+len(gotB) == 0 {
 				res.Violation(w.finding("dns.answers/address-missing",
 					fmt.Sprintf("LookupIP of %s reports no address although the answers contain %v %v", nameTok, model.AAAA, model.A), si, model, got))
-				w.aborted = true
+				w.aborted, w.violated = true, true
 				return
 			}
 		}
@@ -361,6 +361,103 @@ func (w *world) tcpWrite(c *dialRec, b []byte, thenClose bool) {
 	}
 }
 
+// drain: the real resolver has left the model's behaviour (drift).  Lookups still in flight are
+// completed with well-formed answers so that they return, and what they return is judged by the
+// part of the property that needs no model: only addresses from responses to the lookup's own
+// queries (or from the cached result of an earlier lookup of the name) may come back.
+func (w *world) drain(si int) {
+	a7 := okMsg("A7", "a", []rr{{T: "A", Ttl: 60, Ip: "a7"}}, "ok", -1)
+	b7 := okMsg("B7", "aaaa", []rr{{T: "AAAA", Ttl: 60, Ip: "b7"}}, "ok", -1)
+	for round := 0; round < 6; round++ {
+		w.mu.Lock()
+		var rs []*run
+		for _, r := range w.runs {
+			rs = append(rs, r)
+		}
+		w.mu.Unlock()
+		if len(rs) == 0 {
+			return
+		}
+		for _, r := range rs {
+			var st string
+			if w.virtual {
+				st = w.settle(r, "ret", 0)
+			} else {
+				st = w.settle(r, "ret", 500*time.Millisecond)
+			}
+			switch st {
+			case "ret":
+				w.judgeFree(r, si)
+				w.mu.Lock()
+				delete(w.runs, r.p)
+				w.mu.Unlock()
+			case "dial":
+				w.decide(r, true)
+			case "pending":
+				w.learnIDs(r)
+				w.mu.Lock()
+				c := r.conn
+				w.mu.Unlock()
+				for i, m := range []msg{a7, b7} {
+					pkt, err := buildMsg(&m, r.nameTok, r.id, w.seed, i)
+					if err != nil {
+						return
+					}
+					if c != nil && c.srv != nil {
+						r.msgs = append(r.msgs, delivered{m: m, at: w.now})
+						w.tcpWrite(c, frame(pkt), false)
+						if w.virtual {
+							synctest.Wait()
+						}
+					} else if w.up != nil && r.udpAddr.IsValid() {
+						r.msgs = append(r.msgs, delivered{m: m, udp: true, at: w.now})
+						_ = w.up.send("srv", r.udpAddr, pkt)
+					}
+				}
+			}
+		}
+	}
+}
+
+// judgeFree: model-free part of the oracle for a lookup that returned after a drift.
+func (w *world) judgeFree(r *run, si int) {
+	if r.panicked != "" {
+		w.res.Violation(w.finding("dns.resolver/panic", "the resolver panicked: "+firstLine(r.panicked), si, nil, r.panicked))
+		w.violated = true
+		return
+	}
+	if r.err != nil {
+		return
+	}
+	prov := map[string]bool{}
+	for _, d := range r.msgs {
+		if d.m.own() {
+			for _, x := range d.m.Ans {
+				prov[x.Ip] = true
+			}
+		}
+	}
+	if st := w.stored[r.nameTok]; st != nil {
+		for k := range st.prov {
+			prov[k] = true
+		}
+	}
+	all := append(append(slices.Clone(r.a), r.aaaa...), r.ips...)
+	if r.api == "IP" {
+		all = append(all, r.ip)
+	}
+	toks, bad := w.tokens(r.nameTok, all)
+	for _, t := range toks {
+		if !prov[t] || len(bad) > 0 {
+			w.res.Violation(w.finding("dns.answers/not-from-own-responses",
+				fmt.Sprintf("lookup of %s returned address %s, which no response to its own queries from the configured server contained (responses: %s)", r.nameTok, t, kinds(deliveredOf(r))),
+				si, nil, toks))
+			w.violated = true
+			return
+		}
+	}
+}
+
 func deliveredOf(r *run) []delivered { return slices.Clone(r.msgs) }
 
 func kinds(ds []delivered) string {
@@ -385,7 +482,7 @@ func firstLine(s string) string {
 // compareObs compares the real cache with the model's after a step.
 func (w *world) compareObs(si int, o *obsT, failedReturn bool, before []obsEntry) {
 	real, ok := w.project()
-	if !ok {
+	if !ok || w.projDrift {
 		return
 	}
 	// NoPoisoning: a lookup that did not succeed leaves the cached entries as they were
@@ -401,20 +498,27 @@ func (w *world) compareObs(si int, o *obsT, failedReturn bool, before []obsEntry
 		if !slices.Equal(key(before), key(real)) {
 			w.res.Violation(w.finding("dns.cache/changed-by-failed-lookup",
 				"a lookup that did not yield both answers changed the cached entries", si, before, real))
-			w.aborted = true
+			w.aborted, w.violated = true, true
 			return
 		}
 	}
+	// A different cache content is noted, but the behaviour goes on: whether the difference matters
+	// to the property shows at the later lookups, which are judged against the property's own bound.
+	differs := ""
 	if len(real) != len(o.Cache) {
-		w.drift(si, "cache length differs", o.Cache, real)
-		return
-	}
-	for i := range real {
-		m := o.Cache[i]
-		if real[i].N != m.N || !slices.Equal(real[i].A, m.A) || !slices.Equal(real[i].AAAA, m.AAAA) || (w.virtual && real[i].Exp != m.Exp) {
-			w.drift(si, fmt.Sprintf("cache entry %d differs (list order, addresses or expiry)", i), o.Cache, real)
-			return
+		differs = "cache length differs"
+	} else {
+		for i := range real {
+			m := o.Cache[i]
+			if real[i].N != m.N || !slices.Equal(real[i].A, m.A) || !slices.Equal(real[i].AAAA, m.AAAA) || (w.virtual && real[i].Exp != m.Exp) {
+				differs = fmt.Sprintf("cache entry %d differs (list order, addresses or expiry)", i)
+				break
+			}
 		}
+	}
+	if differs != "" && !w.projDrift {
+		w.projDrift = true
+		w.res.DriftNote(w.finding("dns/model-drift", differs, si, o.Cache, real))
 	}
 }
 
@@ -589,7 +693,7 @@ func runBehaviour(res *vio.Result, virtual bool, seed int64, bi int, b vio.Behav
 				res.Violation(w.finding("dns.fallback/no-tcp-retry",
 					fmt.Sprintf("the UDP exchange of the lookup of %s ended without both answers (%s) and the lookup returned (err=%s) without trying TCP",
 						r.nameTok, kinds(deliveredOf(r)), errClass(r.err)), si, a.Out, got))
-				w.aborted = true
+				w.aborted, w.violated = true, true
 			} else {
 				w.judgeReturn(r, si, a.Out, o)
 			}
@@ -629,7 +733,7 @@ func runBehaviour(res *vio.Result, virtual bool, seed int64, bi int, b vio.Behav
 					res.Violation(w.finding("dns.fallback/query-not-retried-over-tcp",
 						fmt.Sprintf("UDP did not yield a complete answer to the %v query of %s (%s) but the TCP connection carries only %v",
 							missing, r.nameTok, kinds(deliveredOf(r)), d.which()), si, a.Out, d.which()))
-					w.aborted = true
+					w.aborted, w.violated = true, true
 				} else if !sameSet(d.which(), a.Out.Q) {
 					w.drift(si, fmt.Sprintf("%s: DialStream carries queries %v, model %v", a.N, d.which(), a.Out.Q), a.Out, d.which())
 				}
@@ -644,13 +748,8 @@ func runBehaviour(res *vio.Result, virtual bool, seed int64, bi int, b vio.Behav
 				// "retrying over TCP when UDP is truncated, unanswered or unusable"
 				w.drift(si, fmt.Sprintf("%s: model expects a DialStream call, nothing happened", a.N), a.Out, got)
 			} else if expect == "ret" {
-				if w.virtual || (a.Out.R == "hit" && r.traffic()) {
-					// (real time: the clock may have run ahead of the model's, a miss is always allowed)
-					w.drift(si, fmt.Sprintf("%s: model expects the lookup to return (%s), it is still waiting (upstream asked: %v)", a.N, a.Out.R, r.traffic()), a.Out, got)
-				} else {
-					res.Break("behaviour %d step %d (%s): the lookup did not return within %v", bi, si, a.N, wait)
-					return
-				}
+				// (real time: the clock may have run ahead of the model's, a miss is always allowed)
+				w.drift(si, fmt.Sprintf("%s: model expects the lookup to return (%s), it is still waiting after %v (upstream asked: %v)", a.N, a.Out.R, wait, r.traffic()), a.Out, got)
 			}
 		}
 		if w.aborted {
@@ -664,6 +763,9 @@ func runBehaviour(res *vio.Result, virtual bool, seed int64, bi int, b vio.Behav
 		if w.aborted {
 			break
 		}
+	}
+	if w.aborted && !w.violated {
+		w.drain(len(w.hist) - 1)
 	}
 	res.AddSteps(1, steps)
 	res.Sample(map[string]any{"behaviour": bi, "virtual": virtual, "actions": w.acts}, 2)
